@@ -209,4 +209,19 @@ example : qnorm (⟨1, 2, 3, 4⟩ : Quat ℚ) ≠ 0 := by simp only [qnorm]; nor
 example : ∃ c, compose [(⟨⟨1, 2, 3, 4⟩, ⟨1, 0, 0⟩⟩ : Pose ℚ), ⟨⟨0, 1, 0, 0⟩, ⟨0, 5, 0⟩⟩, ⟨⟨1, 1, 0, 0⟩, ⟨0, 0, 7⟩⟩] = some c :=
   ⟨_, rfl⟩
 
+/-- rescaling (the in-place mutator) commutes with inversion: the inverse of a rescaled pose is the rescaled inverse -/
+theorem inverse_rescale (s : K) (p : Pose K) : inverse (rescale s p) = rescale s (inverse p) := by
+  simp only [inverse, rescale, Pose.mk.injEq, true_and]
+  simp only [M3.mulVec, V3.mulNegOne, V3.mk.injEq]
+  refine ⟨?_, ?_, ?_⟩ <;> ring
+
+/-- HISTORIES of pose objects: rescaling one object changes that object only — every other object of the pool, results of earlier
+  `inverse` / `compose` calls included, stays what it was; so `p.inverse()` asked again later is the inverse of what `p` is then -/
+theorem rescale_touches_one_object (pool : List (Pose K)) (i j : Nat) (s : K) (h : j ≠ i) :
+    (histStep pool (HistOp.rescale i s))[j]? = pool[j]? := by
+  simp only [histStep]
+  cases pool[i]? with
+  | none => rfl
+  | some p => simp [List.getElem?_set, h.symm]
+
 end Kapture.C05
